@@ -18,13 +18,24 @@ THEOREMS = [
     "AsynqModel.Futures.C10_reads_stable",
     "AsynqModel.Futures.C10_provider_once",
     "AsynqModel.Futures.C10_notify_once_after_visible",
+    "AsynqModel.Futures.C10_notify_count",
+    "AsynqModel.Futures.C10_subs_after_completion",
+    "AsynqModel.Futures.C10_passive_subs_stay",
+    "AsynqModel.Futures.C10_unsubscribe",
     "AsynqModel.Futures.C10_const_complete",
 ]
 BUILDS = {"quick": ["py"], "thorough": ["py", "cy"]}
 RULE = ("random operation histories (length 1-40, ops value/error/call/is_computed/set_value/set_error/reset_unsafe/"
-        "subscribe good|raising) on each future kind (Future ok/raising provider, ConstFuture, ErrorFuture, AsyncTask "
-        "returning/raising); non-trivial = history that contains a completion (uncomputed -> computed) and at least 3 "
-        "operations; distinct by (kind, history) hash")
+        "subscribe/unsubscribe) on each future kind (Future ok/raising/self-completing provider, ConstFuture, ErrorFuture, "
+        "AsyncTask returning/raising); a subscriber is well-behaved, raising (three exception classes), one-shot "
+        "(unsubscribes itself while notified), unsubscribes another handler (earlier, later, itself, unknown), subscribes "
+        "a new handler, or re-enters set_value/set_error; value and error tokens stand for exotic objects (None, 0, '', False, "
+        "__eq__-always-true, an exception instance as a value, a future as a value, the future itself, an object whose "
+        "__bool__/__eq__/__repr__ raise; falsy / eq-all / BaseException-only / StopIteration / raising-repr errors); "
+        "family 'burst' = n subscribers (n = 5..257, mixed behaviours) + completion + reset + second completion; family "
+        "'futsubs' = the same subscriber lists on batch items, batches, DebugBatchItem and blocking AsyncTasks, two "
+        "completions each; family 'suspended' = suspended task completed from outside; non-trivial = history that "
+        "contains a completion (uncomputed -> computed) and at least 3 operations; distinct by (kind, history) hash")
 TRUSTED = [
     "hand-written Lean model AsynqModel.Lib.Futures tied to the code by this differential run only",
     "Python harness checks/c10.py (token <-> object identity mapping, read-only peek after each operation)",
@@ -32,30 +43,147 @@ TRUSTED = [
 ]
 ASSUMPTIONS = [
     "callbacks raise only Exception (BaseException from a subscriber is out of the statement's scope)",
-    "single thread; batches and batch items as futures are covered by C11's model",
+    "providers / task bodies raise Exception subclasses (a BaseException-only error is passed to set_error / ErrorFuture / "
+    "raised by a task body, not by a Future provider: Future._compute lets it through without completing, as any Python code would)",
+    "a handler is subscribed at most once (ids are distinct); a handler that another handler unsubscribes before its own "
+    "turn in the same notification round, and a handler subscribed during the round, may or may not be notified in it "
+    "(the code notifies a snapshot: the former yes, the latter no - the model says so, the observer accepts both)",
+    "single thread; completion paths of batches and batch items are C11's model - here only their notification rounds "
+    "are judged (family futsubs, same Lean clause notifiedAll, no theorem about how they complete)",
 ]
 KINDS = ["lazyOk", "lazyErr", "const", "error", "taskOk", "taskErr", "lazySelfSet"]
-OPS = ["value", "error", "call", "isComputed", "setValue", "setError", "reset", "subscribe"]
+OPS = ["value", "error", "call", "isComputed", "setValue", "setError", "reset", "subscribe", "unsubscribe"]
 UNKNOWN = 999999
+CASE_TIMEOUT = 5     # a history takes milliseconds; a mutant that makes the scheduler spin must not cost 20 s per case
+NVALS = 9      # value tokens 0..9 (see make_objects)
+NERRS = 6      # error tokens 1..6
+RAISABLE = [1, 2, 3, 6]      # error tokens a Future provider may raise (Exception subclasses)
+TASK_RAISABLE = [1, 2, 3, 4, 6]   # a task body may also raise a BaseException-only error (AsyncTask stores it)
+BURST_SIZES = {"quick": [5, 9, 17, 33, 65, 129], "thorough": [5, 9, 17, 33, 65, 129, 257]}
+SUBS_TARGETS = ["item-value", "item-flush", "item-set", "item-cancel", "batch-flush", "batch-cancel", "batch-via-item",
+                "debugitem", "debugbatch", "task-blocked", "task-dep", "future-value", "future-in-task", "nested"]
+
+
+def kind_arg(rng, kind):
+    if kind == "lazyErr":
+        return rng.choice(RAISABLE)
+    if kind == "taskErr":
+        return rng.choice(TASK_RAISABLE)
+    if kind == "error":
+        return rng.randint(1, NERRS)
+    if kind == "const":
+        return rng.randint(0, NVALS - 3) if rng.random() < 0.8 else rng.choice([8, 9])   # 7 = "the future itself"
+    return rng.randint(0, NVALS)
+
+
+def gen_beh(rng, own, known, fresh):
+    """what subscriber `own` does while it is notified; `known` = ids subscribed so far, `fresh()` = a new id"""
+    r = rng.random()
+    if r < 0.40:
+        return ["good"]
+    if r < 0.58:
+        return ["raising"]
+    if r < 0.73:
+        return ["oneShot"]
+    if r < 0.85:
+        q = rng.random()
+        if known and q < 0.55:
+            return ["unsub", rng.choice(known)]          # an earlier subscriber (already notified when this one runs)
+        if q < 0.75:
+            return ["unsub", own + rng.randint(1, 2)]    # the next one(s): not yet notified
+        if q < 0.9:
+            return ["unsub", own]
+        return ["unsub", 900000 + own]                   # a handler that was never subscribed: ValueError, swallowed
+    if r < 0.92:
+        return ["resub", fresh()]
+    return ["reenter", rng.choice(["val", "err"]), rng.randint(1, 3)]
+
+
+class _Ids(object):
+    """subscriber ids: 1, 2, 3 ... for subscribe ops; 500001 ... for handlers subscribed from inside a notification"""
+
+    def __init__(self, ops=()):
+        self.n = 0
+        self.late = 500000
+        for o in ops:
+            if o[0] == "subscribe":
+                self.n = max(self.n, o[1]) if o[1] < 500000 else self.n
+                if len(o) > 3 and o[2] == "resub":
+                    self.late = max(self.late, o[3])
+        self.known = [o[1] for o in ops if o[0] == "subscribe"]
+
+    def fresh_late(self):
+        self.late += 1
+        return self.late
+
+    def subscribe_op(self, rng, plain=False):
+        self.n += 1
+        beh = (["raising"] if rng.random() < 0.3 else ["good"]) if plain else gen_beh(rng, self.n, self.known, self.fresh_late)
+        self.known.append(self.n)
+        return ["subscribe", self.n] + beh
+
+
+def gen_op(rng, ids, allow_reset=True, plain=False):
+    o = rng.choices(OPS, weights=[5, 4, 2, 3, 3, 3, 2 if allow_reset else 0, 4, 1])[0]
+    if o == "setValue":
+        return [o, rng.randint(0, NVALS)]
+    if o == "setError":
+        return [o, rng.randint(1, NERRS)]
+    if o == "subscribe":
+        return ids.subscribe_op(rng, plain)
+    if o == "unsubscribe":
+        if ids.known and rng.random() < 0.8:
+            return [o, rng.choice(ids.known)]
+        return [o, 900000 + rng.randint(0, 5)]
+    return [o]
+
+
+def gen_opts(rng):
+    """debug options that switch on the seldom-run branches between 'outcome stored' and 'subscribers notified'
+    (FutureBase._computed: DUMP_COMPUTED; AsyncTask._computed: COLLECT_PERF_STATS)"""
+    return rng.choice([["DUMP_COMPUTED"], ["COLLECT_PERF_STATS"], ["DUMP_COMPUTED", "COLLECT_PERF_STATS"]])
 
 
 def gen_case(rng, size=None):
     kind = rng.choice(KINDS)
     n = size if size is not None else rng.choice([1, 2, 3, 4, 6, 8, 12, 20, 40])
-    ops = []
-    nsub = 0
-    for _ in range(n):
-        o = rng.choices(OPS, weights=[5, 4, 2, 3, 3, 3, 2 if rng.random() < 0.6 else 0, 4])[0]
-        if o == "setValue":
-            ops.append([o, rng.randint(0, 3)])
-        elif o == "setError":
-            ops.append([o, rng.randint(1, 3)])
-        elif o == "subscribe":
-            nsub += 1
-            ops.append([o, nsub, 1 if rng.random() < 0.3 else 0])
-        else:
-            ops.append([o])
-    return {"kind": [kind, rng.randint(1, 3)], "ops": ops}
+    ids = _Ids()
+    allow_reset = rng.random() < 0.6
+    plain = rng.random() < 0.25      # a quarter of the histories keep to well-behaved / raising subscribers
+    ops = [gen_op(rng, ids, allow_reset, plain) for _ in range(n)]
+    case = {"kind": [kind, kind_arg(rng, kind)], "ops": ops}
+    if rng.random() < 0.12:
+        case["opts"] = gen_opts(rng)
+    return case
+
+
+COMPLETERS = [["value"], ["error"], ["call"], ["setValue", 2], ["setError", 2]]
+
+
+def burst_case(rng, n, kind=None):
+    """n subscribers with mixed behaviours, a completion, reads, reset_unsafe, a second completion: the size of the
+    handler list is the parameter (thresholds in the notification loop / handler storage)"""
+    kind = kind or rng.choice([k for k in KINDS if k not in ("const", "error")])
+    ids = _Ids()
+    ops = [ids.subscribe_op(rng) for _ in range(n)]
+    ops.append(list(rng.choice(COMPLETERS)))
+    ops += [["isComputed"], ["setValue", 1], ["value"]]
+    if rng.random() < 0.5:
+        ops.append(["unsubscribe", rng.choice(ids.known)])
+    ops += [["reset"], list(rng.choice(COMPLETERS)), ["error"], ["reset"], list(rng.choice(COMPLETERS)), ["call"]]
+    case = {"kind": [kind, kind_arg(rng, kind)], "ops": ops, "family": "burst"}
+    if rng.random() < 0.12:
+        case["opts"] = gen_opts(rng)
+    return case
+
+
+def subs_case(rng, target, n):
+    ids = _Ids()
+    subs = [ids.subscribe_op(rng)[1:] for _ in range(n)]
+    return {"special": "futsubs", "target": target, "subs": subs, "nitems": rng.randint(1, 4), "which": rng.randint(0, 3),
+            "v1": rng.randint(0, NVALS - 3), "e1": rng.choice(RAISABLE), "v2": rng.randint(0, NVALS - 3),
+            "second": rng.choice(["setValue", "setError"]), "prior": rng.random() < 0.3, "opts": gen_opts(rng) if rng.random() < 0.12 else [],
+            "depth": rng.randint(1, 4), "pos": rng.randint(0, n)}
 
 
 def corpus():
@@ -74,8 +202,8 @@ def plan(tier, seed):
     n = 1500 if tier == "quick" else 40000
     cases = corpus()
     # every kind x every single op and every pair of distinct op kinds (small exhaustive core)
-    basic = [["value"], ["error"], ["call"], ["isComputed"], ["setValue", 2], ["setError", 2], ["reset"], ["subscribe", 1, 0],
-             ["subscribe", 2, 1]]
+    basic = [["value"], ["error"], ["call"], ["isComputed"], ["setValue", 2], ["setError", 2], ["reset"],
+             ["subscribe", 1, "good"], ["subscribe", 2, "raising"]]
     for k in KINDS:
         for a in basic:
             for b in basic:
@@ -83,6 +211,24 @@ def plan(tier, seed):
                     cases.append({"kind": [k, 1], "ops": [[*a], [*b], [*c]]})
     cases += [suspended_case(o, c, subs) for o in ("value", "error") for c in (False, True)
               for subs in ([], [0], [1], [0, 0], [1, 0], [0, 1, 0])]
+    # every kind x every pair of subscriber behaviours (+ a plain third subscriber) x completion, reset, second completion
+    behs = [["good"], ["raising"], ["oneShot"], ["unsub", 1], ["unsub", 2], ["unsub", 3], ["resub", 500001],
+            ["reenter", "val", 3], ["reenter", "err", 1]]
+    for k in KINDS:
+        if k in ("const", "error") and tier == "quick":
+            continue
+        for a in behs:
+            for b in behs:
+                for comp in ([["value"]] if tier == "quick" else [["value"], ["error"], ["setValue", 2], ["setError", 2]]):
+                    b2 = ["resub", 500002] if b[0] == "resub" else b
+                    cases.append({"kind": [k, 1], "family": "behpair",
+                                  "ops": [["subscribe", 1] + a, ["subscribe", 2] + b2, ["subscribe", 3, "good"], list(comp),
+                                          ["reset"], ["setValue", 3], ["unsubscribe", 3], ["reset"], ["value"]]})
+    for size in BURST_SIZES[tier]:
+        cases += [burst_case(rng, size) for _ in range(12 if tier == "quick" else 40)]
+    for target in SUBS_TARGETS:
+        for size in ([0, 1, 2, 3, 4, 6, 12, 40] if tier == "quick" else [0, 1, 2, 3, 4, 5, 6, 8, 12, 20, 40, 130]):
+            cases += [subs_case(rng, target, size) for _ in range(4 if tier == "quick" else 12)]
     cases += [gen_case(rng) for _ in range(n)]
     return cases
 
@@ -168,28 +314,64 @@ def run_suspended(case):
 
 
 def shrink(case):
+    if case.get("special") == "futsubs":
+        subs = case["subs"]
+        for i in range(len(subs)):
+            c = dict(case)
+            c["subs"] = subs[:i] + subs[i + 1:]
+            yield c
+        for i, sub in enumerate(subs):
+            if sub[1] != "good":
+                c = dict(case)
+                c["subs"] = subs[:i] + [[sub[0], "good"]] + subs[i + 1:]
+                yield c
+        for flag, off in (("prior", False), ("opts", [])):
+            if case.get(flag):
+                c = dict(case)
+                c[flag] = off
+                yield c
+        if case["target"] == "nested" and case["depth"] > 1:
+            c = dict(case)
+            c["depth"] = case["depth"] - 1
+            yield c
+        return
     if case.get("special"):
         return
     ops = case["ops"]
+    extra = {"opts": case["opts"]} if case.get("opts") else {}
+    if extra:
+        yield {"kind": case["kind"], "ops": ops}
     for i in range(len(ops)):
-        yield {"kind": case["kind"], "ops": ops[:i] + ops[i + 1:]}
+        yield dict(extra, kind=case["kind"], ops=ops[:i] + ops[i + 1:])
+    for i, o in enumerate(ops):
+        if o[0] == "subscribe" and o[2] not in ("good", 0):
+            yield dict(extra, kind=case["kind"], ops=ops[:i] + [[o[0], o[1], "good"]] + ops[i + 1:])
+    if case["kind"][1] != 1:
+        yield dict(extra, kind=[case["kind"][0], 1], ops=ops)
 
 
 def neighbours(case, rng):
     if case.get("special"):
         return
+    extra = {"opts": case["opts"]} if case.get("opts") else {}
     for k in KINDS:
-        yield {"kind": [k, case["kind"][1]], "ops": case["ops"]}
+        yield dict(extra, kind=[k, case["kind"][1] if k == case["kind"][0] else 1], ops=case["ops"])
     for _ in range(24):
         ops = [list(o) for o in case["ops"]]
+        ids = _Ids(ops)       # new subscribers get ids that are not in use: a handler is subscribed once
         if ops and rng.random() < 0.5:
-            ops[rng.randrange(len(ops))] = gen_case(rng, 1)["ops"][0]
+            i = rng.randrange(len(ops))
+            if ops[i][0] == "subscribe":
+                continue
+            ops[i] = gen_op(rng, ids)
         else:
-            ops.insert(rng.randint(0, len(ops)), gen_case(rng, 1)["ops"][0])
-        yield {"kind": case["kind"], "ops": ops}
+            ops.insert(rng.randint(0, len(ops)), gen_op(rng, ids))
+        yield dict(extra, kind=case["kind"], ops=ops)
 
 
 def signature(case, v):
+    if case.get("special") == "futsubs":
+        return "futsubs/%s/%s" % (case["target"], v["spec"])
     if case.get("special"):
         return "suspended/%s" % v["spec"]
     return "%s/%s" % (case["kind"][0], v["spec"])
@@ -203,18 +385,206 @@ class UserErr(Exception):
     pass
 
 
+class FalsyErr(Exception):
+    """an error that is falsy (`if self._error:` instead of `is not None` would lose it)"""
+
+    def __bool__(self):
+        return False
+
+    def __len__(self):
+        return 0
+
+
+class EqAllErr(Exception):
+    """an error that claims to be equal to everything"""
+
+    def __eq__(self, other):
+        return True
+
+    def __ne__(self, other):
+        return False
+
+    def __hash__(self):
+        return 0
+
+
+class BaseOnlyErr(BaseException):
+    """not an Exception: only `except BaseException` sees it"""
+
+
+class HostileReprErr(Exception):
+    def __repr__(self):
+        raise RuntimeError("repr of the error raises")
+
+    __str__ = __repr__
+
+
+class EqAll(object):
+    """a value equal to everything (`_value != _none` instead of `is not` would see 'not computed')"""
+
+    def __eq__(self, other):
+        return True
+
+    def __ne__(self, other):
+        return False
+
+    def __hash__(self):
+        return 0
+
+
+class Hostile(object):
+    """a value that cannot be inspected: truth value, comparison, hash and repr all raise"""
+
+    def __bool__(self):
+        raise RuntimeError("bool of the value raises")
+
+    def __eq__(self, other):
+        raise RuntimeError("eq of the value raises")
+
+    def __hash__(self):
+        raise RuntimeError("hash of the value raises")
+
+    def __repr__(self):
+        raise RuntimeError("repr of the value raises")
+
+
+class Env(object):
+    """tokens <-> objects (by identity), the notification log and the subscriber callbacks; shared by the one-future
+    histories and the futsubs family"""
+
+    def __init__(self, futures, share=None):
+        self.futures = futures
+        if share is not None:      # a second future watched in the same case: same objects, own log and handlers
+            self.vals, self.errs = share.vals, share.errs
+            self.cblog, self.handlers = [], {}
+            self._index()
+            return
+        self.vals = {0: None, 1: ("v", 1), 2: 0, 3: "", 4: EqAll(), 5: ValueError("a value, not an error"),
+                     6: futures.ConstFuture(("inner",)), 7: ("placeholder for the future itself",), 8: Hostile(), 9: False}
+        self.errs = {1: UserErr("e1"), 2: FalsyErr("e2"), 3: EqAllErr("e3"), 4: BaseOnlyErr("e4"),
+                     5: StopIteration("e5"), 6: HostileReprErr("e6")}
+        self.cblog = []
+        self.handlers = {}
+        self._index()
+
+    def _index(self):
+        self.val_tok = {id(v): k for k, v in self.vals.items() if v is not None}
+        self.err_tok = {id(e): k for k, e in self.errs.items()}
+
+    def set_self(self, fut):
+        self.vals[7] = fut
+        self._index()
+
+    def vt(self, v):
+        if v is None:
+            return 0
+        return self.val_tok.get(id(v), UNKNOWN)
+
+    def et(self, e):
+        return self.err_tok.get(id(e), UNKNOWN)
+
+    def peek(self, f):
+        if not f.is_computed():
+            return "none"
+        try:
+            v = f.value()
+        except BaseException as e:  # noqa
+            return "(err %d)" % self.et(e)
+        return "(val %d)" % self.vt(v)
+
+    def exc_res(self, e, unsub=False):
+        if id(e) in self.err_tok:
+            return "(raised user %d)" % self.err_tok[id(e)]
+        if isinstance(e, self.futures.FutureIsAlreadyComputed):
+            return "(raised alreadyComputed)"
+        if isinstance(e, NotImplementedError):
+            return "(raised notImplemented)"
+        if unsub and type(e) is ValueError:
+            return "(raised notSubscribed)"
+        return "(raised other %s)" % type(e).__name__
+
+    def handler(self, sid):
+        """the handler with that id; an id nobody subscribed is a function that is not in any handler list"""
+        h = self.handlers.get(sid)
+        if h is None:
+            h = self.handlers[sid] = lambda f: None
+        return h
+
+    def make_cb(self, sid, beh):
+        env = self
+        kind = beh[0]
+        if kind in (0, 1):
+            kind = "raising" if kind else "good"
+
+        def cb(f):
+            rec = [sid, env.peek(f), None]
+            env.cblog.append(rec)
+            if kind == "raising":
+                raise (RuntimeError, FalsyErr, EqAllErr)[sid % 3]("subscriber %d raises" % sid)
+            if kind == "oneShot":
+                f.on_computed.unsubscribe(cb)
+            elif kind == "unsub":
+                f.on_computed.unsubscribe(env.handler(beh[1]))
+            elif kind == "resub":
+                f.on_computed.subscribe(env.make_cb(beh[1], ["good"]))
+            elif kind == "reenter":
+                try:
+                    if beh[1] == "val":
+                        f.set_value(env.vals[beh[2]])
+                    else:
+                        f.set_error(env.errs[beh[2]])
+                    rec[2] = "(unit)"
+                except BaseException as e:  # noqa
+                    rec[2] = env.exc_res(e)
+        self.handlers[sid] = cb
+        return cb
+
+    def take_cbs(self):
+        out = " ".join("(%d %s)" % (r[0], r[1]) if r[2] is None else "(%d %s %s)" % (r[0], r[1], r[2]) for r in self.cblog)
+        del self.cblog[:]
+        return out
+
+
+def beh_str(beh):
+    if beh[0] in (0, 1):
+        return "raising" if beh[0] else "good"
+    if beh[0] == "reenter":
+        return "reenter (%s %d)" % (beh[1], beh[2])
+    return " ".join(str(x) for x in beh)
+
+
+def op_str(op):
+    if op[0] == "subscribe":
+        return "subscribe %d %s" % (op[1], beh_str(op[2:]))
+    return " ".join(str(x) for x in op)
+
+
 def run_case(case):
+    if not case.get("opts"):
+        return run_case1(case)
+    from asynq import _debug
+    old = {o: getattr(_debug.options, o) for o in case["opts"]}
+    for o in case["opts"]:
+        setattr(_debug.options, o, True)
+    try:
+        r = run_case1(case)
+    finally:
+        for o, v in old.items():
+            setattr(_debug.options, o, v)
+    r["features"] += ["option=" + o for o in case["opts"]]
+    return r
+
+
+def run_case1(case):
     if case.get("special") == "suspended":
         return run_suspended(case)
+    if case.get("special") == "futsubs":
+        return run_futsubs(case)
     import asynq
     from asynq import futures
 
-    vals = {0: None}
-    for i in range(1, 5):
-        vals[i] = ("v", i)  # unique objects
-    errs = {i: UserErr("e%d" % i) for i in range(1, 5)}
-    val_tok = {id(v): k for k, v in vals.items() if v is not None}
-    err_tok = {id(e): k for k, e in errs.items()}
+    env = Env(futures)
+    vals, errs, vt, et = env.vals, env.errs, env.vt, env.et
     runs = [0]
     kind, arg = case["kind"]
 
@@ -257,47 +627,14 @@ def run_case(case):
         fut = body.asynq()
     else:
         raise ValueError(kind)
-
-    def vt(v):
-        if v is None:
-            return 0
-        return val_tok.get(id(v), UNKNOWN)
-
-    def et(e):
-        return err_tok.get(id(e), UNKNOWN)
-
-    def peek(f):
-        if not f.is_computed():
-            return "none"
-        try:
-            v = f.value()
-        except BaseException as e:  # noqa
-            return "(err %d)" % et(e)
-        return "(val %d)" % vt(v)
-
-    def exc_res(e):
-        if id(e) in err_tok:
-            return "(raised user %d)" % err_tok[id(e)]
-        if isinstance(e, futures.FutureIsAlreadyComputed):
-            return "(raised alreadyComputed)"
-        if isinstance(e, NotImplementedError):
-            return "(raised notImplemented)"
-        return "(raised other %s)" % type(e).__name__
-
-    cblog = []
-
-    def make_cb(sid, raising):
-        def cb(f):
-            cblog.append("(%d %s)" % (sid, peek(f)))
-            if raising:
-                raise RuntimeError("subscriber %d raises" % sid)
-        return cb
+    env.set_self(fut)
 
     lines = ["(case futures %d %s %d)" % (case["id"], kind, arg)]
     completions = 0
+    behs = set()
     was = fut.is_computed()
     for op in case["ops"]:
-        del cblog[:]
+        del env.cblog[:]
         name = op[0]
         try:
             if name == "value":
@@ -319,23 +656,215 @@ def run_case(case):
                 fut.reset_unsafe()
                 res = "(unit)"
             elif name == "subscribe":
-                fut.on_computed.subscribe(make_cb(op[1], bool(op[2])))
+                behs.add(beh_str(op[2:]).split()[0])
+                fut.on_computed.subscribe(env.make_cb(op[1], op[2:]))
+                res = "(unit)"
+            elif name == "unsubscribe":
+                fut.on_computed.unsubscribe(env.handler(op[1]))
                 res = "(unit)"
             else:
                 raise ValueError(name)
-        except Exception as e:  # the outcome of the operation, not a harness failure
-            res = exc_res(e)
-        cbs = " ".join(cblog)
+        except BaseException as e:  # the outcome of the operation, not a harness failure
+            if type(e).__name__ == "CaseTimeout":
+                raise
+            res = env.exc_res(e, unsub=(name == "unsubscribe"))
+        ncb = len(env.cblog)
+        cbs = env.take_cbs()
         now = fut.is_computed()
         if now and not was:
             completions += 1
+            if ncb:
+                behs.add("notified<=%d" % next(b for b in (1, 4, 16, 64, 10**9) if ncb <= b))
         was = now
-        lines.append("(obs (%s) %s (%s) %s %d)" % (" ".join(str(x) for x in op), res, cbs, peek(fut), runs[0]))
+        lines.append("(obs (%s) %s (%s) %s %d)" % (op_str(op), res, cbs, env.peek(fut), runs[0]))
     lines.append("(end)")
     feats = ["kind=" + kind, "len<=%d" % next(b for b in (1, 3, 8, 20, 40, 10**9) if len(case["ops"]) <= b)]
     feats += sorted({"op=" + o[0] for o in case["ops"]})
+    feats += sorted("sub=" + b for b in behs)
     feats.append("completions=%d" % min(completions, 3))
+    if case.get("family"):
+        feats.append("family=" + case["family"])
+    if True:
+        feats.append("arg=%s%d" % ("e" if kind in ("lazyErr", "taskErr", "error") else "v", arg))
     nontrivial = None
     if completions >= 1 and len(case["ops"]) >= 3:
         nontrivial = hashlib.sha1(json.dumps([case["kind"], case["ops"]]).encode()).hexdigest()[:16]
     return {"lines": lines, "features": feats, "nontrivial": nontrivial}
+
+
+def run_futsubs(case):
+    """notification rounds of futures outside the one-future model: batch items / batches of a user batch class,
+    DebugBatchItem / DebugBatch, AsyncTasks that block on an item or on another task, a Future awaited by a task.
+    Round 1 = the natural completion path of the target, round 2 = reset_unsafe() + set_value / set_error from outside.
+    After each round: a second set must raise FutureIsAlreadyComputed, value() and call must report the outcome."""
+    import asynq
+    from asynq import batching, futures
+
+    env = Env(futures)
+    vals, errs = env.vals, env.errs
+    target, nitems, which = case["target"], case["nitems"], case["which"] % case["nitems"]
+    v1, e1 = vals[case["v1"]], errs[case["e1"]]
+    asynq.scheduler.reset()
+
+    class B(batching.BatchBase):
+        def _try_switch_active_batch(self):
+            if cur[0] is self:
+                cur[0] = B()
+
+        def _flush(self):
+            for it in self.items:
+                if it is not skip[0]:
+                    it.set_value(v1 if it is marked[0] else ("other", it.index))
+
+    class I(batching.BatchItemBase):
+        def __init__(self):
+            batching.BatchItemBase.__init__(self, cur[0])
+
+    cur, marked, skip = [None], [None], [None]
+    cur[0] = B()
+
+    if case.get("prior"):
+        # leftover state: an earlier computation on this thread failed in the middle of a batch wait
+        @asynq.asynq()
+        def failing():
+            yield I()
+            raise UserErr("prior computation fails")
+        try:
+            failing()
+        except UserErr:
+            pass
+
+    if target.startswith("item-") or target.startswith("batch-"):
+        batch = cur[0]
+        items = [I() for _ in range(nitems)]
+        marked[0] = items[which]
+        if target.startswith("item-"):
+            fut = items[which]
+            if target == "item-value":
+                go = fut.value
+            elif target == "item-flush":
+                go = batch.flush
+            elif target == "item-set":
+                go = lambda: fut.set_value(v1)
+            else:
+                go = lambda: batch.cancel(e1)
+        else:
+            fut = batch
+            v1 = None
+            if target == "batch-flush":
+                go = batch.flush
+            elif target == "batch-via-item":
+                go = items[which].value
+            else:
+                go = lambda: batch.cancel(e1)
+    elif target == "debugitem":
+        fut = batching.DebugBatchItem("c10-%d" % case["id"], v1)
+        go = fut.value
+    elif target == "debugbatch":
+        it = batching.DebugBatchItem("c10b-%d" % case["id"], v1)
+        fut = it.batch
+        v1 = None
+        go = it.value
+    elif target == "task-blocked":
+        @asynq.asynq()
+        def body():
+            yield [I() for _ in range(nitems)]
+            return v1
+        fut = body.asynq()
+        go = fut.value
+    elif target == "task-dep":
+        @asynq.asynq()
+        def leaf():
+            yield I()
+            return v1
+
+        @asynq.asynq()
+        def body():
+            r = yield leaf.asynq()
+            return r
+        fut = body.asynq()
+        go = fut.value
+    elif target in ("future-value", "nested"):
+        fut = futures.Future(lambda: v1)
+        go = fut.value
+    elif target == "future-in-task":
+        fut = futures.Future(lambda: v1)
+
+        @asynq.asynq()
+        def waiter():
+            r = yield fut
+            return r
+        go = waiter
+    else:
+        raise ValueError(target)
+
+    lines = ["(case futsubs %d %s %d)" % (case["id"], target, len(case["subs"]))]
+    # the watched futures: (env, future, its lines); every one gets its own instances of the case's subscribers
+    watched = [(env, fut, [])]
+    if target == "nested":
+        # level k's notification round completes level k+1 from the inside (a handler in the middle of the list calls
+        # set_value on the next future): notification rounds nested `depth` deep, each judged on its own
+        for level in range(1, case["depth"] + 1):
+            watched.append((Env(futures, share=env), futures.Future(lambda: ("never computed by provider",)), []))
+    for level, (env_k, fut_k, lines_k) in enumerate(watched):
+        pos = case.get("pos", 0) if level + 1 < len(watched) else -1
+        for n, sub in enumerate(case["subs"]):
+            if n == pos:
+                fut_k.on_computed.subscribe(lambda f, nxt=watched[level + 1][1]: nxt.set_value(v1))
+            lines_k.append("(sub %d %s)" % (sub[0], beh_str(sub[1:])))
+            fut_k.on_computed.subscribe(env_k.make_cb(sub[0], sub[1:]))
+        if pos >= len(case["subs"]):
+            fut_k.on_computed.subscribe(lambda f, nxt=watched[level + 1][1]: nxt.set_value(v1))
+
+    def one_round(go, expected):
+        for env_k, _, _ in watched:
+            del env_k.cblog[:]
+        try:
+            go()
+        except BaseException as e:  # noqa  (item-cancel etc. do not raise; a raise shows in the reads below)
+            if type(e).__name__ == "CaseTimeout":
+                raise
+        for env_k, fut_k, lines_k in watched:
+            cbs = env_k.take_cbs()
+            out = env_k.peek(fut_k)
+            try:
+                fut_k.set_value(("again",))
+                again = "(unit)"
+            except BaseException as e:  # noqa
+                again = env_k.exc_res(e)
+            reads = []
+            for rd in (fut_k.value, fut_k):
+                try:
+                    reads.append("(ok %d)" % env_k.vt(rd()))
+                except BaseException as e:  # noqa
+                    reads.append(env_k.exc_res(e))
+            if env_k.cblog:   # nobody may be notified by the failed set or by the reads
+                cbs += " " + env_k.take_cbs()
+            lines_k.append("(round %s (%s) %s %s %s %s)" % (out, cbs, again, reads[0], reads[1], expected))
+
+    if target in ("item-cancel", "batch-cancel"):
+        first = "(err %d)" % case["e1"]
+    elif target in ("batch-flush", "batch-via-item", "debugbatch"):
+        first = "(val 0)"          # a flushed batch holds None
+    else:
+        first = "(val %d)" % case["v1"]
+    one_round(go, first)
+    for _, fut_k, _ in watched:
+        fut_k.reset_unsafe()
+    if target == "nested":
+        v1 = vals[case["v2"]]      # the inner handlers pass v1 on: every level completes with the second value
+        one_round(lambda: fut.set_value(v1), "(val %d)" % case["v2"])
+    elif case["second"] == "setValue":
+        one_round(lambda: fut.set_value(vals[case["v2"]]), "(val %d)" % case["v2"])
+    else:
+        one_round(lambda: fut.set_error(e1), "(err %d)" % case["e1"])
+    for _, _, lines_k in watched:
+        lines.append("(fut)")
+        lines += lines_k
+    asynq.scheduler.reset()
+    lines.append("(end)")
+    behs = sorted({"sub=" + beh_str(sub[1:]).split()[0] for sub in case["subs"]})
+    feats = ["family=futsubs", "target=" + target, "nsubs<=%d" % next(b for b in (0, 1, 4, 16, 64, 10**9) if len(case["subs"]) <= b)]
+    feats += behs
+    key = hashlib.sha1(json.dumps([target, case["subs"], case["second"]]).encode()).hexdigest()[:16] if case["subs"] else None
+    return {"lines": lines, "features": feats, "nontrivial": key}
